@@ -205,6 +205,26 @@ def tlc(module, cfg, files=None, workers=None, timeout=600, simulate=None, seed=
     return r
 
 
+def apalache(module, opts, timeout=600, edit=None):
+    """Run apalache-mc check on spec/<module>.tla in a scratch copy of spec/ (edit: {file: (old, new)} textual change of
+    the copy, for negative controls). Returns (outcome, wall, tail of the output); outcome = "NoError" | "Error" | None."""
+    wd = scratch("verif-apa-")
+    for f in os.listdir(SPEC):
+        if f.endswith(".tla"):
+            shutil.copy(os.path.join(SPEC, f), wd)
+    for f, (old, new) in (edit or {}).items():
+        t = open(os.path.join(wd, f)).read()
+        if old not in t:
+            raise Inconclusive("apalache negative control: text to edit not found in " + f)
+        open(os.path.join(wd, f), "w").write(t.replace(old, new))
+    st = time.time()
+    p = subprocess.run(["timeout", str(int(timeout)), "apalache-mc", "check", "--out-dir=" + os.path.join(wd, "_apalache-out")] + list(opts) + [module + ".tla"],
+                       cwd=wd, capture_output=True, text=True, errors="replace")
+    out = p.stdout + p.stderr
+    m = re.search(r"The outcome is: (\w+)", out)
+    return (m.group(1) if m else None), time.time() - st, out[-2000:]
+
+
 def parse_payload(ln, tag):
     """one line printed by PrintT(<<tag, ToJson(x)>>) -> x (None if the line is something else)."""
     pre = '<<"%s", ' % tag
